@@ -69,6 +69,17 @@ def build_vc(name, st, goal, extra_hyps=(), extra_index=(), rounds=2, meta=None)
             pool[z3.IntSort().name()] = pool[z3.IntSort().name()] + [z3.IntVal(0)]
             new = []
             for fi, ff in enumerate(foralls):
+                if isinstance(ff.k, (list, tuple)):
+                    import itertools
+
+                    pools = [pool.get(k.sort().name(), [])[:24] for k in ff.k]
+                    for tup in itertools.product(*pools):
+                        key = (fi,) + tuple(t.get_id() for t in tup)
+                        if key in done:
+                            continue
+                        done.add(key)
+                        new.append(ff.inst(tup))
+                    continue
                 terms = pool.get(ff.k.sort().name(), [])
                 for t in terms:
                     key = (fi, t.get_id())
